@@ -547,6 +547,16 @@ func (c *conn) Close() error {""")]),
  ("c18-write-returns-tail-count", "C18", [("ramfs/dirent.go", """	ref.Info.Length = uint64(len(ref.Data))
 	return int(m), nil""", """	ref.Info.Length = uint64(len(ref.Data))
 	return int(n), nil""")]),
+ ("c02-overflow-size-off", "C02", [("overflow.go", """	return o.size
+}""", """	return o.size - 1
+}""")]),
+ ("c02-overflow-ignores-direct", "C02", [("overflow.go", """	if of, ok := err.(overflow); ok {
+		return of.Size()
+	}
+""", """	if _, ok := err.(overflow); ok {
+		return 1
+	}
+""")]),
  ("c05-no-notag-skip", "C05", [("transport.go", """		hint++
 		if hint == NOTAG {
 			hint = 0
